@@ -88,18 +88,21 @@ C19_Keys == SetToSeq(
 \* container (priority), and newer containers carrying !del / !merge / !notnew / !unsafe / !force / metadata
 C19_OldLeaf == TagAll({C19_L("1")}, {"none", "force"})
 C19_OldSub  == C19_OldLeaf
-               \cup TagAll({SD("dict", NoVal, <<<<C19_KA, l>>>>) : l \in C19_OldLeaf} \cup {SD("list", NoVal, <<<<IKey(0), C19_L("1")>>>>)}, {"none", "force", "unsafe"})
-               \cup {C19_Call(<<<<C19_KA, C19_L("1")>>>>)}
+               \cup {SD("dict", NoVal, <<<<C19_KA, l>>>>) : l \in C19_OldLeaf}
+               \cup {WithTag(SD("dict", NoVal, <<<<C19_KA, C19_L("1")>>>>), "force"), WithTag(SD("dict", NoVal, <<<<C19_KA, C19_L("1")>>>>), "unsafe"),
+                     WithTag(SD("list", NoVal, <<<<IKey(0), C19_L("1")>>>>), "force"), C19_Call(<<<<C19_KA, C19_L("1")>>>>)}
 C19_Old == {SD("dict", NoVal, <<<<C19_KA, c>>>>) :
-               c \in TagAll(MapsOver(<<C19_KA, C19_KB>>, C19_OldSub) \ {SD("dict", NoVal, <<>>)}, {"none", "force", "unsafe"})}
+               c \in TagAll(MapsOver(<<C19_KA, C19_KB>>, C19_OldSub) \ {SD("dict", NoVal, <<>>)}, {"none", "unsafe"})}
 C19_NewLeaf == {C19_L("2")}
 C19_NewSub  == C19_NewLeaf
-               \cup TagAll({SD("dict", NoVal, <<<<C19_KB, C19_L("2")>>>>), SD("list", NoVal, <<<<IKey(0), C19_L("2")>>>>), SD("dict", NoVal, <<>>)},
+               \cup TagAll({SD("dict", NoVal, <<<<C19_KB, C19_L("2")>>>>), SD("list", NoVal, <<<<IKey(0), C19_L("2")>>>>)},
                            {"none", "del", "merge", "notnew", "unsafe"})
+               \cup {SD("dict", NoVal, <<>>)}
 C19_New == {SD("dict", NoVal, <<<<C19_KA, c>>>>) :
-               c \in TagAll(MapsOverMax(<<C19_KA, C19_KB>>, C19_NewSub, 2) \ {SD("dict", NoVal, <<>>)}, {"none", "del", "merge", "notnew", "unsafe", "weak"})
+               c \in TagAll(MapsOverMax(<<C19_KA, C19_KB>>, C19_NewSub, 1) \ {SD("dict", NoVal, <<>>)}, {"none", "del", "merge", "notnew", "unsafe", "weak"})
                      \cup {C19_MdAll(SD("dict", NoVal, <<<<C19_KB, C19_L("2")>>>>)), SD("dict", NoVal, <<>>),
-                           WithTag(SD("dict", NoVal, <<>>), "del")}}
+                           WithTag(SD("dict", NoVal, <<>>), "del"),
+                           WithTag(SD("dict", NoVal, <<<<C19_KA, C19_L("2")>>, <<C19_KB, WithTag(SD("dict", NoVal, <<<<C19_KB, C19_L("2")>>>>), "notnew")>>>>), "del")}}
 C19_Hist  == SetToSeq(C19_Old) \o SetToSeq(C19_New)
 C19_HistRange == << <<1, Cardinality(C19_Old)>>, <<Cardinality(C19_Old) + 1, Cardinality(C19_Old) + Cardinality(C19_New)>> >>
 
